@@ -55,17 +55,25 @@ func (srv *Server) ListenAndServe() error {
 		return errors.New("server already listening")
 	}
 
-	ctx, cancel := context.WithCancel(context.Background())
+	// srvCtx is canceled only by Close, while the errgroup's context is also
+	// canceled when any of its goroutines fails.
+	srvCtx, cancel := context.WithCancel(context.Background())
 	srv.shutdown = cancel
 
 	if len(srv.listeners) == 0 {
 		return errors.New("no listeners found")
 	}
 
-	eg, ctx := errgroup.WithContext(ctx)
+	eg, ctx := errgroup.WithContext(srvCtx)
 
 	for _, l := range srv.listeners {
 		if err := l.Listener.Listen(ctx, l.Addr); err != nil {
+			if srvCtx.Err() != nil {
+				// The server was closed while it was starting
+				_ = eg.Wait()
+				srv.releasePendingTransports()
+				return ErrServerClosed
+			}
 			return fmt.Errorf("listen error: %w", err)
 		}
 
@@ -83,10 +91,26 @@ func (srv *Server) ListenAndServe() error {
 
 	err := eg.Wait()
 
-	if errors.Is(err, ctx.Err()) {
+	// There is no goroutine sending to or receiving from the queue anymore
+	srv.releasePendingTransports()
+
+	if srvCtx.Err() != nil || errors.Is(err, ctx.Err()) {
+		// After a call to Close, the listeners may return their own closing errors
 		return ErrServerClosed
 	}
 	return err
+}
+
+// releasePendingTransports closes the transports that were accepted but not served.
+func (srv *Server) releasePendingTransports() {
+	for {
+		select {
+		case t := <-srv.transportChan:
+			_ = t.Close()
+		default:
+			return
+		}
+	}
 }
 
 func acceptTransports(ctx context.Context, listener TransportListener, c chan<- Transport) error {
@@ -99,6 +123,7 @@ func acceptTransports(ctx context.Context, listener TransportListener, c chan<- 
 		verifPoint("accept:before-send")
 		select {
 		case <-ctx.Done():
+			_ = transport.Close()
 			return ctx.Err()
 		case c <- transport:
 		}
@@ -198,7 +223,8 @@ func (srv *Server) Close() error {
 		}
 	}
 
-	close(srv.transportChan)
+	// The transport queue is not closed, since the goroutines that are still selecting on it would
+	// receive a nil transport or panic on sending. The pending transports are released by ListenAndServe.
 	return multierr.Combine(errs...)
 }
 
